@@ -20,8 +20,8 @@ use crate::{
         format::{format_part, unquote_part},
         offset::{add_offset_to_dn, remove_offset_from_dn, try_remove_offset_from_dn},
         parse::{
-            parse_format_string, parse_offset, parse_part, ParseUnit, ParsedDate, ParsedTime,
-            Period,
+            parse_format_string, parse_offset, parse_part, remove_literal_part, ParseUnit,
+            ParsedDate, ParsedTime, Period,
         },
         time::{
             convert::{
@@ -346,15 +346,9 @@ impl DateTime {
         let mut string = string.to_string();
 
         for part in parts {
-            // Escaped apostrophes
-            if part.starts_with('\u{0000}') {
-                string.replace_range(0..part.len(), "");
-                continue;
-            }
-
-            // Escaped parts
-            if part.starts_with('\'') {
-                string.replace_range(0..part.len() - if part.ends_with('\'') { 2 } else { 1 }, "");
+            // Escaped apostrophes and escaped parts
+            if part.starts_with('\u{0000}') || part.starts_with('\'') {
+                remove_literal_part(&part, &mut string)?;
                 continue;
             }
 
